@@ -65,7 +65,7 @@ def extract():
                         base = 'list:' + str(vt.get('member', ''))
                     typ = typ.__name__
                 attrs.append({'xml': xmlname, 'member': member, 'type': str(typ), 'required': bool(required),
-                              'enum': enum, 'base': base})
+                              'enum': enum, 'base': base, 'qualified': xmlname.startswith('{')})
             table[class_id(cls)] = {
                 'module': m.__name__.replace('saml2_tophat.', ''), 'name': cls.__name__, 'tag': cls.c_tag, 'ns': cls.c_namespace,
                 'children': sorted(children, key=lambda c: c['member']), 'attributes': sorted(attrs, key=lambda a: a['xml']),
